@@ -303,3 +303,60 @@ Proof.
   - unfold fficallback in HX. destruct (fficallback_full encode k x) as [w | partial]; [discriminate |].
     destruct T as [T _]; rewrite T; apply firstn_overwrite; lia.
 Qed.
+
+(* ================================================================== 5. extern "Python": arguments arrive exactly *)
+(* byte-addressed memory of the wrapper's `char a[]`; the wrapper stores argument i (its object representation, or
+   the address of a by-reference argument) at slot_offset i, in order; the backend then reads backend_read_bytes
+   bytes at backend_slot i. *)
+Definition bmem := Z -> Z.
+Definition bwrite (m : bmem) (off : Z) (bs : list Z) : bmem :=
+  fun a => if (off <=? a) && (a <? off + Z.of_nat (length bs)) then nth (Z.to_nat (a - off)) bs 0 else m a.
+Definition bread (m : bmem) (off : Z) (n : nat) : list Z := map (fun k => m (off + Z.of_nat k)) (seq 0 n).
+
+Fixpoint wrapper_stores (m : bmem) (i : nat) (args : list (list Z)) : bmem :=
+  match args with
+  | [] => m
+  | bs :: rest => wrapper_stores (bwrite m (slot_offset (Z.of_nat i)) bs) (S i) rest
+  end.
+
+Lemma map_nth_seq0 : forall (bs : list Z), map (fun k => nth k bs 0) (seq 0 (length bs)) = bs.
+Proof.
+  induction bs as [| b bs IH]; [reflexivity |].
+  cbn [length seq map nth]. f_equal. rewrite <- seq_shift, map_map. exact IH.
+Qed.
+
+Lemma bread_bwrite_same : forall m off bs, bread (bwrite m off bs) off (length bs) = bs.
+Proof.
+  intros m off bs. unfold bread. rewrite <- (map_nth_seq0 bs) at 2.
+  apply map_ext_in. intros k Hk. apply in_seq in Hk. unfold bwrite.
+  replace ((off <=? off + Z.of_nat k) && (off + Z.of_nat k <? off + Z.of_nat (length bs))) with true by (symmetry; lia).
+  replace (off + Z.of_nat k - off) with (Z.of_nat k) by lia. rewrite Nat2Z.id. reflexivity.
+Qed.
+
+Lemma stores_above_frame : forall args m i a, a < slot_offset (Z.of_nat i) ->
+  wrapper_stores m i args a = m a.
+Proof.
+  induction args as [| bs rest IH]; intros m i a Ha; cbn [wrapper_stores]; [reflexivity |].
+  rewrite IH by (unfold slot_offset in *; lia).
+  unfold bwrite. replace (slot_offset (Z.of_nat i) <=? a) with false by (symmetry; lia). reflexivity.
+Qed.
+
+Lemma bread_ext : forall m m' off n, (forall a, off <= a < off + Z.of_nat n -> m a = m' a) -> bread m off n = bread m' off n.
+Proof.
+  intros m m' off n H. unfold bread. apply map_ext_in. intros k Hk. apply in_seq in Hk. apply H. lia.
+Qed.
+
+Theorem externpy_args_exact : forall args m k i bs,
+  Forall (fun b => Z.of_nat (length b) <= 8) args ->       (* every store is at most one slot: store_bytes <= 8 *)
+  nth_error args i = Some bs ->
+  bread (wrapper_stores m k args) (backend_slot (Z.of_nat (k + i))) (length bs) = bs.
+Proof.
+  induction args as [| b rest IH]; intros m k i bs W H; [destruct i; discriminate |].
+  inversion W as [| ? ? Wb Wrest]; subst.
+  destruct i as [| i]; cbn [nth_error wrapper_stores] in *.
+  - inversion H; subst bs. rewrite Nat.add_0_r. change (backend_slot (Z.of_nat k)) with (slot_offset (Z.of_nat k)).
+    rewrite (bread_ext _ (bwrite m (slot_offset (Z.of_nat k)) b)).
+    + apply bread_bwrite_same.
+    + intros a Ha. apply stores_above_frame. unfold slot_offset in *. lia.
+  - replace (k + S i)%nat with (S k + i)%nat by lia. apply IH; assumption.
+Qed.
